@@ -220,7 +220,7 @@ def doc (j : Json) : Json := Id.run do
   let loadIn := arrOf rngOf (jget j "loadIn")
   let impl := jget j "impl"
   let fxj := jget j "fx"
-  let fx : Fixes := ⟨jbool fxj "clamp", jbool fxj "link", jbool fxj "fold"⟩
+  let fx : Fixes := ⟨jbool fxj "link", jbool fxj "fold"⟩
   let e : Env := { doc := text, raw := lines text, jr := jr, crlf := text.contains '\r', fx := fx, utf16 := jbool fxj "utf16" }
   -- model
   let mDiag := diagnostics perrs diagIn loadIn
@@ -298,8 +298,8 @@ def doc (j : Json) : Json := Id.run do
     let mrf := references jr c (jbool cj "decl")
     let mp := prepareRename jr c
     let ctx := jnat cj "ctx"
-    let mter := textEditRange fx text c ctx
-    let mce := completionEdits fx text c ctx (jnat cj "nitems")
+    let mter := textEditRange text c ctx
+    let mce := completionEdits text c ctx (jnat cj "nitems")
     let mic := inlineEdits c (jnat cj "ninl")
     let mut o : List (String × Json) := [
       ("h", match mh with
@@ -328,7 +328,7 @@ def doc (j : Json) : Json := Id.run do
       let (r, _) := nrOf x
       a := { a with checked := a.checked + 1 }
       if !rangeOK text r then
-        a := a.fail (if !fx.clamp && (ctx == 3 || ctx == 1) && (r.sl == r.el && r.sc > r.ec) then "completion-start-after-cursor" else "")
+        a := a.fail ""
           s!"completion: edit range {showR r} (cursor {c.line}:{c.char}) is not a well-formed range"
     for x in jarr ic "ic" do
       let (r, _) := nrOf x
